@@ -22,7 +22,7 @@ import os
 import sys
 from typing import Dict, List
 
-BUILTINS = {"len", "int", "str", "list", "bool", "all", "any", "enumerate", "map", "filter", "sorted", "min", "max"}
+BUILTINS = {"len", "int", "str", "list", "bool", "all", "any", "enumerate", "map", "filter", "sorted", "min", "max", "type", "isinstance"}
 # T5: methods that exist on str -- a call `x.m(...)` is routed through __pyvc__.meth(x, "m") so that a NATIVE string carrying markers
 # (an f-string / concatenation of proxies) is never handed to a native str method (which would work on the marker payload)
 STR_METHODS = {"lower", "upper", "strip", "lstrip", "rstrip", "split", "rsplit", "replace", "find", "rfind", "index", "rindex", "startswith",
@@ -319,10 +319,26 @@ class T(ast.NodeTransformer):
         fdef = ast.FunctionDef(name=name, args=ast.arguments(posonlyargs=[], args=args, kwonlyargs=[],
                                                              kw_defaults=[], defaults=defaults), body=body, decorator_list=[], returns=None,
                                type_params=[])
+        # local containers (plain names bound outside the loop) that the body mutates in place: their contents before a generic
+        # iteration are unknown -- a loop over a symbolic sequence that does this is outside the rule (Unsupported at run time)
+        MUTM = {"append", "extend", "add", "update", "insert", "pop", "remove", "discard", "clear", "setdefault", "popitem", "sort", "reverse",
+                "appendleft", "extendleft"}
+        mut = set()
+        for n in ast.walk(ast.Module(body=node.body, type_ignores=[])):
+            if isinstance(n, ast.Call) and isinstance(n.func, ast.Attribute) and n.func.attr in MUTM and isinstance(n.func.value, ast.Name):
+                mut.add(n.func.value.id)
+            if isinstance(n, (ast.Assign, ast.AugAssign, ast.Delete)):
+                for tg in (n.targets if isinstance(n, (ast.Assign, ast.Delete)) else [n.target]):
+                    if isinstance(tg, ast.Subscript) and isinstance(tg.value, ast.Name):
+                        mut.add(tg.value.id)
+        mut = sorted(m_ for m_ in mut if m_ not in assigned and m_ not in tnames and m_ != self.first_arg[-1] and m_ != "__pyvc__")
+        kws = [ast.keyword(arg="accs", value=ast.Constant(value=True))] if accs else []
+        if mut:
+            kws.append(ast.keyword(arg="mut", value=ast.Constant(value=", ".join(mut))))
         fe = ast.Call(func=self._rt("for_each"),
                       args=[node.iter, ast.Name(id=name, ctx=ast.Load()),
                             ast.Constant(value=f"{self.modname}:{fn.name}:{self.loop_no}")],
-                      keywords=[ast.keyword(arg="accs", value=ast.Constant(value=True))] if accs else [])
+                      keywords=kws)
         self.counts["T1"] += 1
         if not accs:
             return [ast.copy_location(fdef, node), ast.copy_location(ast.Expr(value=fe), node)]
